@@ -140,6 +140,27 @@ func init() {
 		c, _, err := certificate.ReadCertificate(w)
 		if err == nil {
 			fails = append(fails, methodFails("C04", "Certificate", c)...)
+			// the package-level type getters are a second route to the key types (twin of the KeyCertificate accessors):
+			// they never panic, and on a KEY certificate with ≥ 4 payload bytes they return the two big-endian fields
+			var st, ct int
+			var se, ce error
+			if pmsg := try(func() {
+				st, se = certificate.GetSignatureTypeFromCertificate(*c)
+				ct, ce = certificate.GetCryptoTypeFromCertificate(*c)
+			}); pmsg != "" {
+				fails = append(fails, fail("C04", "panic:GetTypeFromCertificate", "Get{Signature,Crypto}TypeFromCertificate panics: %s", pmsg))
+			} else if kind, kerr := c.Type(); kerr == nil {
+				pl, _ := c.Data()
+				isKey := kind == 5 && len(pl) >= 4
+				if isKey != (se == nil) || isKey != (ce == nil) || (isKey && (st != int(pl[0])<<8|int(pl[1]) || ct != int(pl[2])<<8|int(pl[3]))) {
+					fails = append(fails, fail("C19", "twin:GetTypeFromCertificate/payload", "type getters on a type-%d certificate with %d payload bytes: sig=%d (%v) crypto=%d (%v)", kind, len(pl), st, se, ct, ce))
+				}
+				if kc, kcerr := key_certificate.KeyCertificateFromCertificate(c); kcerr == nil && isKey {
+					if kc.SigningPublicKeyType() != st || kc.PublicKeyType() != ct {
+						fails = append(fails, fail("C19", "twin:GetTypeFromCertificate/KeyCertificate", "KeyCertificate reports types (%d,%d), the certificate getters (%d,%d)", kc.SigningPublicKeyType(), kc.PublicKeyType(), st, ct))
+					}
+				}
+			}
 			// C08
 			buf := append([]byte{}, w...)
 			c2, _, _ := certificate.ReadCertificate(buf)
